@@ -1,4 +1,4 @@
-import PhyModel.Proofs.FramingCont
+import PhyModel.Proofs.FramingStrict
 /-! # C20 — an interrupted or truncated trace file is never read as a valid result
 
 Framing proof that accompanies the exhaustive fault enumeration on the real code
@@ -120,6 +120,42 @@ example :
     (file 3 x).length = 26 ∧ bodyEnd 3 x = 24 ∧
     (List.range 24).all (fun n => readPrefix 3 x n == none) ∧
     (List.range' 24 4).all (fun n => readPrefix 3 x n == some x) := by
+  decide
+
+/-- **Strict reader** (end marker *and* trailer with matching checksum / length required): it returns
+the original exactly on the complete file and an error on every proper prefix. -/
+theorem read_strict_complete_iff (B : Nat) (x : Val) (n : Nat) :
+    readPrefixStrict B x n = some x ↔ (file B x).length ≤ n := by
+  unfold readPrefixStrict readStrict file
+  rw [unpack_take]
+  by_cases h : (pack B (enc x)).length ≤ n
+  · simp only [h, if_true, Option.bind_some, iff_true]
+    simpa using decode_enc_append x []
+  · simp [h]
+
+theorem read_prefix_safe_strict (B : Nat) (x : Val) (n : Nat) :
+    readPrefixStrict B x n = none ∨ readPrefixStrict B x n = some x := by
+  by_cases h : (file B x).length ≤ n
+  · right; exact (read_strict_complete_iff B x n).mpr h
+  · left
+    unfold readPrefixStrict readStrict file at *
+    rw [unpack_take]
+    simp [h]
+
+/-- whatever the strict reader accepts the incremental reader accepts too: the only difference
+between them is the trailer window -/
+theorem strict_implies_lazy (B : Nat) (x : Val) (n : Nat)
+    (h : readPrefixStrict B x n = some x) : readPrefix B x n = some x := by
+  have h1 := (read_strict_complete_iff B x n).mp h
+  refine (read_complete_iff B x n).mpr ?_
+  have : bodyEnd B x ≤ (file B x).length := by
+    simp [bodyEnd, file, pack, header]; omega
+  omega
+
+example :
+    let x : Val := .sub (.num 0 (.sub (.num 0 (.num 7 .nil)) .nil)) (.num 5 .nil)
+    (List.range 26).all (fun n => readPrefixStrict 3 x n == none) ∧
+    readPrefixStrict 3 x 26 = some x ∧ readPrefixStrict 3 x 27 = some x := by
   decide
 
 end PhyModel.Props.C20
